@@ -300,6 +300,25 @@ class Exec:
         if t == 'block':
             return self.block(s[1], st, k)
         if t == 'expr':
+            tgt = self.local_target(s[1], st) if s[1][0] == 'call' else None
+            if tgt is not None and not self.w.pkgs[tgt[0]]['funcs'][tgt[1]][4]:
+                # a call of a result-less function of the bindings as a statement: run its body with the rest of the
+                # caller as continuation, so that each of its branches carries its own state into what follows
+                decl = self.w.pkgs[tgt[0]]['funcs'][tgt[1]]
+                vals, evs = [], []
+                for a in s[1][2]:
+                    v, ev = self.expr(a, st)
+                    vals.append(v); evs.append(ev)
+                if self.depth > 4 or len(decl[3]) != len(vals) or decl[1]:
+                    raise Unsupported('statement call of ' + tgt[1])
+                sub = Exec(self.w, tgt[0], f'{tgt[0]}.{tgt[1]}', self.depth + 1)
+                sub.fresh = self.fresh + 1000 * (self.depth + 1)
+                sub.calls = self.calls
+                env = {pn: v for (pn, pt), v in zip(decl[3], vals)}
+                caller_vars = st['vars']
+                st2 = {'vars': env, 'fields': dict(st['fields']), 'defers': []}
+                body = sub.block(decl[5][1], st2, lambda st3, ret: k({'vars': dict(caller_vars), 'fields': dict(st3['fields']), 'defers': list(st['defers'])}, None))
+                return self.cat(*evs, body)
             v, ev = self.expr(s[1], st)
             if v.get('k') == 'panic':
                 return self.cat(ev, f'[.panic {lstr(v["msg"])}]')
@@ -883,11 +902,7 @@ class Exec:
                 return V('slice', name=self.gen('view'), len=n['e'], esz='1', elem='byte'), self.cat(*evs)
             return (p if short == 'BigIntToC' else V('opaque', d='big.Int')), self.cat(*evs)
         # Go functions of the bindings: inline
-        tgt = None
-        if f[0] == 'id' and f[1] in self.w.pkgs[self.pkg]['funcs'] and f[1] not in st['vars']:
-            tgt = (self.pkg, f[1])
-        elif f[0] == 'sel' and f[1][0] == 'id' and f[1][1] in self.w.pkgs and f[1][1] not in st['vars'] and f[2] in self.w.pkgs[f[1][1]]['funcs']:
-            tgt = (f[1][1], f[2])
+        tgt = self.local_target(e, st)
         if tgt is not None:
             return self.inline(tgt, None, args, st, unparse(e))
         if f[0] == 'sel':
@@ -908,6 +923,17 @@ class Exec:
                     raise Unsupported('big.Int arithmetic (' + fu + ')')
                 return V('opaque', d=fu), self.cat(*evs)
         raise Unsupported('call of ' + fu)
+
+    def local_target(self, e, st):
+        f = e[1]
+        fu = unparse(f)
+        if fu.split('.')[-1] in ('BigIntToC', 'BigIntFromC', 'PointerToByteSlice'):
+            return None
+        if f[0] == 'id' and f[1] in self.w.pkgs[self.pkg]['funcs'] and f[1] not in st['vars']:
+            return (self.pkg, f[1])
+        if f[0] == 'sel' and f[1][0] == 'id' and f[1][1] in self.w.pkgs and f[1][1] not in st['vars'] and f[2] in self.w.pkgs[f[1][1]]['funcs']:
+            return (f[1][1], f[2])
+        return None
 
     def inline(self, tgt, recv, args, st, text):
         pkg, q = tgt
@@ -967,6 +993,8 @@ class Exec:
                 fields.append(f'avail := some (({v["size"]}) - ({v["off"]}))')
             if v['k'] == 'int':
                 fields.append(f'val := some ({v["e"]})')
+            if v['k'] == 'bool':
+                fields.append(f'flag := some (decide ({v["e"]}))')
             if v['k'] == 'cptr' and v.get('goobj'):
                 caps = []
                 path = v.get('objpath') or v['blk']
@@ -1052,6 +1080,9 @@ def fn_pointer_type(world, cname):
 
 
 def main():
+    accept = '--accept' in sys.argv
+    if accept:
+        sys.argv.remove('--accept')
     repo = sys.argv[1] if len(sys.argv) > 1 else os.environ.get('JEDI_REPO', '/repo')
     out = sys.argv[2] if len(sys.argv) > 2 else os.path.join(VERIF, 'lean', 'JediVerif', 'Gen', 'GoBindings.lean')
     try:
@@ -1104,12 +1135,13 @@ def main():
     A(',\n'.join(rows))
     A(']')
     # functions
-    fnrows, callrows, models, unmodelled = [], [], [], []
+    fnrows, callrows, models, unmodelled, digests = [], [], [], [], []
     for pkg in PKGS:
         for q, fn in w.pkgs[pkg]['order']:
             decl = w.pkgs[pkg]['funcs'][q]
             dig = hashlib.sha256(sexp(decl).encode()).hexdigest()[:16]
             params = [(pn or '_') + ' ' + unparse(pt) for pn, pt in decl[3]]
+            digests.append((pkg + '.' + q, dig))
             fnrows.append(f'  {{ file := {lstr(fn)}, name := {lstr(pkg + "." + q)}, params := {llist([lstr(p) for p in params])}, digest := {lstr(dig)} }}')
             ex = Exec(w, pkg, f'{pkg}.{q}')
             try:
@@ -1167,6 +1199,7 @@ def main():
     A('namespace Jedi.Gen.Go')
     A('open Jedi.Go')
     A('')
+    bufs = []
     A('/-! memory safety of every modelled function, for every environment (the tactic `go_mem` is in Impl/GoMemTac.lean;\n'
       'the preconditions `Pre` - what a valid call is - are hand-written in Impl/GoMem.lean) -/')
     for n, term in models:
@@ -1186,6 +1219,24 @@ def main():
             A('  ' + hv)
         A(f'  go_mem «{n}»')
         A('')
+        if True:
+            A(f'theorem «{n}.buf» (E : Env) (h : Valid E) (hp : Pre {lstr(n)} E) : AllP (bufOk E) («{n}» E) := by')
+            for hv in haves:
+                A('  ' + hv)
+            A(f'  go_buf «{n}»')
+            A('')
+            bufs.append(n)
+    A('/-- every buffer a modelled function hands to a C function is at least as long as the C function reads or writes (`bufNeeds`). -/')
+    A('theorem buffers_sufficient (n : String) (f : Env → List Ev) (hm : (n, f) ∈ models) (E : Env) (hv : Valid E) (hp : Pre n E) : AllP (bufOk E) (f E) := by')
+    A('  simp only [models, List.mem_cons, Prod.mk.injEq, List.not_mem_nil, or_false] at hm')
+    for i, (n, term) in enumerate(models):
+        tac = f'exact «{n}.buf» E hv hp' if n in bufs else f'simp only [«{n}», allP_nil]'
+        if i + 1 < len(models):
+            A('  rcases hm with ⟨rfl, rfl⟩ | hm')
+            A(f'  · {tac}')
+        else:
+            A('  obtain ⟨rfl, rfl⟩ := hm')
+            A(f'  {tac}')
     A('/-- every modelled function of the bindings, in every environment in which the call is valid, allocates non-negative sizes,\n'
       'touches C memory only inside the blocks it allocated, indexes Go slices in range and does not panic. -/')
     A('theorem mem_safe (n : String) (f : Env → List Ev) (hm : (n, f) ∈ models) (E : Env) (hv : Valid E) (hp : Pre n E) : AllOk (f E) := by')
@@ -1204,6 +1255,17 @@ def main():
     if old2 != text2:
         with open(out2, 'w') as f:
             f.write(text2)
+    if accept:
+        exp = os.path.join(VERIF, 'lean', 'JediVerif', 'Impl', 'GoExpected.lean')
+        with open(exp, 'w') as f:
+            f.write('/- The digests of the parsed Go functions the hand-written parts of the Go model (Impl/GoMem.lean: `Pre`, `bufNeeds`;\n'
+                    'Properties/GoBindings.lean: the byte helpers) were written against.  Refreshed ONLY by `translate/go2lean.py --accept`\n'
+                    'after re-reading a changed function; never at check time. -/\n'
+                    'namespace Jedi.Impl.GoExpected\n'
+                    'def expected : List (String × String) := [\n')
+            f.write(',\n'.join(f'  ({lstr(n)}, {lstr(d)})' for n, d in digests))
+            f.write('\n]\nend Jedi.Impl.GoExpected\n')
+        print('go2lean: accepted', len(digests), 'digests ->', exp)
     print(f'go2lean: {len(fnrows)} functions, {len(models)} modelled, {len(unmodelled)} digest-only, {len(set(callrows))} C calls -> {out}'
           + (' (unchanged)' if old == text else ''))
     for n, r in unmodelled:
